@@ -4,7 +4,8 @@
    X06 Logger front end (LogFront.tla)   X07 config value texts + usage (ValueLit.tla)   X08 ReadRand, ansi texts, SliceContain (Misc.tla)
    X09 colour on versus colour off (Colour.tla)   X10 struct tag syntax (TagParse.tla)
    X11 daemon.Run role dispatch, Launch outcomes off the protocol (DaemonRole.tla)
-   X12 osutil.WaitFor / WaitForInterrupt / WaitForStop over delivered signals (WaitFor.tla)"""
+   X12 osutil.WaitFor / WaitForInterrupt / WaitForStop over delivered signals (WaitFor.tla)
+   X13 config.FromCommandLine in child processes (CmdLine.tla on top of ArgParse.tla), ioutil.SeekAndReadAll (SeekRead.tla)"""
 import json
 import vlib
 from vlib import judge
@@ -82,6 +83,20 @@ def run(ctx, which):
         rows = vlib.read_ndjson(out)
         bad, _, _ = judge(ctx, "osutil", "WaitForCases", rows, nshards=2, workers=2, timeout=600)
         what = lambda c: "%s with other handlers for %s: signals %s observed %s (ready=%s)" % (c["fn"], c["elsewhere"], c["sigs"], c["obs"], c["ready"])
+    elif which == "X13":
+        ctx.run([hb, "-mode", "cmdline", "-maxlen", "2" if q else "3", "-out", out], timeout=1500)
+        rows = vlib.read_ndjson(out)
+        bad, _, _ = judge(ctx, "config", "CmdLine", rows, per_shard=2000, workers=1, timeout=900,
+                          extra_files={"cfgpath.ndjson": json.dumps(list(b"cfg.json")) + "\n"})
+        ctx.run([hb, "-mode", "seekread", "-out", ctx.path("seek.ndjson")], timeout=300)
+        rows2 = vlib.read_ndjson(ctx.path("seek.ndjson"))
+        bad2, _, _ = judge(ctx, "misc", "SeekRead", rows2, nshards=1, workers=2, timeout=300)
+        for c in bad2[:3]:
+            k = int(c.get("_info") or 1)
+            ctx.violation("X13 SeekAndReadAll", "SeekAndReadAll: step %d of the history %s contradicts the file machine" % (k, json.dumps(c["ops"])[:600]), c)
+        rows = rows + rows2
+        what = lambda c: "FromCommandLine with os.Args[1:] = %s: %s, exit status %d, usage on stderr: %s, rest %s" % (
+            [bytes(t).decode("latin1") for t in c["v"]], c["kind"], c["exit"], c["usage"], [bytes(t).decode("latin1") for t in c["rest"]])
     elif which == "X06":
         ctx.run([hb, "-mode", "front", "-out", out], timeout=600)
         rows = vlib.read_ndjson(out)
